@@ -1,4 +1,4 @@
-import UtilModel.Core.Driver
+import UtilModel.Core.DriverH
 import UtilModel.Conc.Model
 import UtilModel.Conc.Monitors
 /-! Development driver for this component only: `lake env lean --run UtilModel/Conc/TestDriver.lean conc < hist` -/
@@ -6,5 +6,5 @@ open UtilModel
 
 def main (args : List String) : IO UInt32 :=
   driverMain [
-    mkEntry "conc" Conc.model Conc.Obs.parse [MonEntry.ofMonitor "C18" Conc.monC18] (cap := 800)
+    mkEntryH "conc" Conc.model Conc.Obs.parse [MonEntry.ofMonitor "C18" Conc.monC18] (cap := 20000)
   ] args
